@@ -28,17 +28,17 @@ CHECKS = {
    "DESIGN.md §4 C04"),
  "C09": ("exploration",
    "property-based testing of the raw /_svs/open|next|cancel exchange against the producer's logical bytes (round trip, with zstd decode), boundary-residue payload lengths, injected producer failures",
-   "For generated chunk sizes, payload lengths at every chunk-boundary residue, channel depths 0..8, both compression settings and all five producer kinds, the concatenated pulled chunks must equal the producer's bytes, exactly the final chunk carries the end marker, an empty uncompressed payload is one empty final chunk, next after end/cancel/unknown id errors, and an injected producer failure surfaces as an error with no end marker and only a prefix delivered.",
+   "For generated chunk sizes, payload lengths at every chunk-boundary residue, channel depths 0..8, both compression settings and all five producer kinds, the concatenated pulled chunks must equal the producer's bytes, exactly the final chunk carries the end marker, an empty uncompressed payload is one empty final chunk, next after end/cancel/unknown id errors, and an injected producer failure (an Err return or a panic) surfaces as an error with no end marker and only a prefix delivered.",
    "chunk_bytes >= 1; chunk sizing itself (local engine policy) not asserted. The puller-level sub-check (c09_net) runs the blocking, async and WebSocket pullers against the same producers over loopback.",
    "DESIGN.md §4 C09"),
  "C05": ("fault_enumeration",
    "generated fault/schedule scenarios (proptest) against scripted peers with tuned socket buffers; byte-exact stream-grammar oracle over the captured connection bytes",
-   "For concurrent writers (2..32, payloads straddling 8191/8192/8193/65535/65536/1-3 MiB) on all three clients, for the blocking client's write timeout against a stalled peer, for async/WebSocket calls abandoned mid-send, and for Server/AsyncServer write timeouts against a stalled reader, the captured byte stream must be whole images of distinct issued frames followed by at most one proper prefix and nothing after it. On the WebSocket server (inline and off-reader responses, handler-pushed notifies and broadcasts from another thread, stalled peer, outbound capacities 1..1024) every message the peer receives must be exactly one frame and the byte image of one issued message.",
+   "For concurrent writers (2..32, payloads straddling 8191/8192/8193/65535/65536/1-3 MiB) on all three clients, for the blocking client's write timeout against a stalled peer, for async/WebSocket calls abandoned mid-send, and for Server/AsyncServer write timeouts against a stalled reader, the captured byte stream must be whole images of distinct issued frames followed by at most one proper prefix and nothing after it. On the WebSocket server (inline and off-reader responses, handler-pushed notifies and broadcasts from another thread, stalled peer, outbound capacities 1..1024) every message the peer receives must be exactly one frame and the byte image of one issued message. Also: small requests abandoned one after another on a full socket (AsyncClient), and other threads queued on the writer when the blocking client's write times out.",
    "Timing only selects which side of a race occurs; the oracle is timing-free. Payloads up to 12 MiB.",
    "DESIGN.md §4 C05"),
  "C06": ("fault_enumeration",
    "enumerated fault x step grid plus proptest-generated fault cases against scripted TCP/WebSocket peers; watchdog-bounded 'must return' obligations; timeout/cancel races with a verif-hooks residue probe",
-   "For each client and each fault (close, RST, half-close, bad magic, length mismatch, truncated header, unallocatable length, partial response at 5 byte offsets then close/RST, WS text frame, WS protocol violation, WS Close frame with TCP kept open; optionally a peer that stays silent after the malformed frame) injected after j requests were read and a were answered with 0..16 calls in flight: every unanswered call and a later call must return Err within 10 s, the notify subscriber must see end-of-stream, and the pending map must be empty; timeout races (response at timeout +-5 ms, never answered, or task abort) must leave no residue and not disturb other calls, also through AsyncClient::forward_message_with_timeout, whose caller-chosen id must be reusable at once.",
+   "For each client and each fault (close, RST, half-close, bad magic, length mismatch, truncated header, unallocatable length, partial response at 5 byte offsets then close/RST, WS text frame, WS protocol violation, WS Close frame with TCP kept open; optionally a peer that stays silent after the malformed frame) injected after j requests were read and a were answered with 0..16 calls in flight: every unanswered call and a later call must return Err within 10 s, the notify subscriber must see end-of-stream, and the pending map must be empty; timeout races (response at timeout +-5 ms, never answered, or task abort) must leave no residue and not disturb other calls, also through AsyncClient::forward_message_with_timeout, whose caller-chosen id must be reusable at once. A fault delivered while another send is parked on a peer that stopped reading (parked-send) must still fail the calls in flight and end the notification stream.",
    "Watchdog 10 s; either outcome accepted in a race; answered calls may fail after RST.",
    "DESIGN.md §4 C06"),
  "C07": ("exploration",
@@ -78,17 +78,17 @@ CHECKS = {
    "DESIGN.md §4 C14"),
  "C15": ("fault_enumeration",
    "enumerated exit-cause x phase x entry-point grid plus proptest-generated multi-connection cases (1..32 concurrent) against the WebSocket server, in-process over duplex streams and through the real accept loops; hook counters and registry lookups as oracle",
-   "For every exit cause (clean close, abrupt loss, text frame, unmasked frame, bad magic, trailing bytes, inline handler panic, connect-callback panic first/second, embedder cancellation, graceful-drain shutdown, failed handshakes) crossed with the connection phase (idle, inline handler running, off-reader handler parked, unread outbound backlog) and the entry point: the disconnect callback runs exactly once (never for a failed handshake), the peer and its alias resolve from connect hooks, handlers and just before the trigger and no longer afterwards, the connect-queued notifies precede the first response in order, and parked off-reader handlers observe cancellation. An embedder cancellation must end the connection also while the reader is parked on a full outbound queue and the client keeps not reading; cancellation before or around the connect callbacks leaves connect and disconnect callbacks paired (each exactly once).",
+   "For every exit cause (clean close, abrupt loss, text frame, unmasked frame, bad magic, trailing bytes, inline handler panic, connect-callback panic first/second, embedder cancellation, graceful-drain shutdown, failed handshakes) crossed with the connection phase (idle, inline handler running, off-reader handler parked, unread outbound backlog) and the entry point: the disconnect callback runs exactly once (never for a failed handshake), the peer and its alias resolve from connect hooks, handlers and just before the trigger and no longer afterwards, the connect-queued notifies precede the first response in order, and parked off-reader handlers observe cancellation. An embedder cancellation must end the connection also while the reader is parked on a full outbound queue and the client keeps not reading; cancellation before or around the connect callbacks leaves connect and disconnect callbacks paired (each exactly once). A server without any disconnect callback or registry still cancels parked handlers; two servers feeding one registry keep distinct ids and each peer present until its own disconnect.",
    "10 s watchdog; cooperative parked handlers; embedder cancel via serve_connection_with_cancel.",
    "DESIGN.md §4 C15"),
  "C16": ("exploration",
    "generated saturation scenarios against the in-process WebSocket server with gate-controlled handlers; exhaustive release orders x exit kinds for caps 1..3, random caps up to 16 and unlimited; saturation observed through the handlers' own signals",
-   "The in-handler gauge never exceeds the cap; a request at the cap is answered ResourceExhausted before any parked handler is released and its handler never runs; a notify at the cap never runs; inline requests are answered during saturation; every released handler's caller gets its own response (panic -> InternalError with its id); after all exits the full cap can be occupied again and one more request is refused again (the cap did not grow); the connection keeps answering; with and without a forwarding middleware; outbound queue capacities default, 1..3 and cap.",
+   "The in-handler gauge never exceeds the cap; a request at the cap is answered ResourceExhausted before any parked handler is released and its handler never runs; a notify at the cap never runs; inline requests are answered during saturation; every released handler's caller gets its own response (panic -> InternalError with its id); after all exits the full cap can be occupied again and one more request is refused again (the cap did not grow); the connection keeps answering; with and without a forwarding middleware; outbound queue capacities default, 1..3 and cap; middleware attached before or after the routes; a second connection to the same server keeps its own slots while the first is saturated.",
    "10 s watchdog for 'immediately'; a fresh request that overtakes the slot release may be told to retry (documented as retryable) and is retried.",
    "DESIGN.md §4 C16"),
  "C17": ("exploration",
    "size-targeted property-based generation (limit-2..limit+2, uniform, 2x) over seven outbound paths; byte-exact predicted frames as oracle; raw peer observes every message size",
-   "For limits 1 KiB..1 MiB (16 MiB thorough) and none, on inline response, off-reader response, handler-pushed notify, registry broadcast, proxy-forwarded response, client request and client notify: no observed binary message exceeds the limit, deliverable messages arrive byte-identical, an oversized response becomes an InternalError response with the same id, an oversized notify is dropped and reported through on_error, an oversized client message fails locally with MessageTooLarge, and a follow-up request on the same connection succeeds; response paths also with queries that fill almost the whole frame budget, the proxy path also with oversized upstream error replies.",
+   "For limits 1 KiB..1 MiB (16 MiB thorough) and none, on inline response, off-reader response, handler-pushed notify, registry broadcast, proxy-forwarded response, client request and client notify: no observed binary message exceeds the limit, deliverable messages arrive byte-identical, an oversized response becomes an InternalError response with the same id, an oversized notify is dropped and reported through on_error, an oversized client message fails locally with MessageTooLarge, and a follow-up request on the same connection succeeds; response paths also with queries that fill almost the whole frame budget, the proxy path also with oversized upstream error replies, and the server's own error reply to a long non-UTF-8 query.",
    "Limits >= 1 KiB (room for the error reply).",
    "DESIGN.md §4 C17"),
  "C18": ("exploration",
